@@ -115,47 +115,46 @@ def natLe (a b : Nat) : Bool := decide (a ≤ b)
 
 /-- cross-check on every op: the graph model must return the same paths as the enumeration -/
 def dmgNote (src dst : Nat) (ups cores downs : List Seg) (cs : List Path) : String :=
-  match combineDMG ups cores downs src dst true with
+  (match combineDMG ups cores downs src dst true with
   | none => " dmg-panic"
   | some qs =>
     if (qs.map renderFull).mergeSort strLe = (cs.map renderFull).mergeSort strLe then ""
-    else " dmg-mismatch"
+    else " dmg-mismatch") ++
+  -- hypothesis of `Scion.C29.getPaths_complete`, checked on every generated input
+  (if decide (NoCollision (allTuples ups cores downs)) then "" else " key-collision")
 
 def weightOf (g : List String) : Nat :=
   match g with
   | w :: _ => ((w.drop 1).toString.toNat?).getD 0
   | [] => 0
 
-def answer28 (all : Bool) (src dst : Nat) (ups cores downs : List Seg)
-    (given : List (List String)) : String :=
+/-- the model's version of one path returned with findAllIdentical=true: looked up among the
+paths of all joins passing no AS more than twice, by full rendering, else by hop fields and
+interfaces (then the differing metadata shows in the diff) -/
+def matchPath (cs : List Path) (g : List String) : Option Path :=
+  let line := joinWith " " g
+  match cs.find? fun p => renderFull p == line with
+  | some p => some p
+  | none =>
+    match g with
+    | [_, _, _, h, f, _, _] => cs.find? fun p => hWord p == h && fWord p == f
+    | _ => none
+
+/-- `c28`: R part — every returned path re-derived by the model, in the order returned, and the
+returned weights sorted; U part — the model's `filterDuplicates` applied to the (model versions of
+the) paths returned with findAllIdentical=true, as a sorted list (the two `Combine` calls order
+equal-key solutions independently, so only the multiset is determined) -/
+def answer28 (src dst : Nat) (ups cores downs : List Seg) (ga gu : List (List String)) : String :=
   let cs := cands src dst ups cores downs
-  let ws := (given.map weightOf).mergeSort natLe
-  let one (g : List String) : String :=
-    if all then
-      let line := joinWith " " g
-      match cs.find? fun p => renderFull p == line with
-      | some p => renderFull p
-      | none =>
-        match g with
-        | [_, _, _, h, f, _, _] =>
-          match cs.find? fun p => hWord p == h && fWord p == f with
-          | some p => renderFull p
-          | none => "no-such-path"
-        | _ => "bad-path"
-    else
-      match g with
-      | [_, f, _] =>
-        match cs.filter fun p => fWord p == f with
-        | [] => "no-such-path"
-        | p :: ps => s!"W{p.weight} {f} X{(p :: ps).foldl (fun m q => max m q.expiry) 0}"
-      | _ => "bad-path"
-  let rec dups (seen : List String) : List (List String) → List String
-    | [] => []
-    | g :: gs =>
-      let key := if all then "" else joinWith " " (g.drop 1 |>.take 1)
-      (if !all && seen.contains key then "dup " ++ one g else one g) :: dups (key :: seen) gs
-  "w " ++ joinWith "," (ws.map toString) ++ dmgNote src dst ups cores downs cs ++ " | " ++
-    joinWith " | " (dups [] given)
+  let matched := ga.map (matchPath cs)
+  let wsA := (ga.map weightOf).mergeSort natLe
+  let wsU := (gu.map weightOf).mergeSort natLe
+  let linesA := matched.map fun m => match m with | some p => renderFull p | none => "no-such-path"
+  let kept := filterDuplicates (matched.filterMap id)
+  let linesU := (kept.map renderUniq).mergeSort strLe
+  "w " ++ joinWith "," (wsA.map toString) ++ dmgNote src dst ups cores downs cs ++ " | " ++
+    joinWith " | " linesA ++ " || w " ++ joinWith "," (wsU.map toString) ++ " | " ++
+    joinWith " | " linesU
 
 def removeOne (x : String) : List String → Option (List String)
   | [] => none
@@ -172,7 +171,7 @@ def answer29 (all : Bool) (src dst : Nat) (ups cores downs : List Seg) (given : 
       | some rest => (acc.1, rest)
       | none => (acc.1 ++ [s], acc.2)
     else if acc.2.contains s then acc else (acc.1 ++ [s], acc.2)) ([], given)
-  joinWith " " ("missing" :: missing) ++ dmgNote src dst ups cores downs cs
+  joinWith " " ("missing" :: missing) ++ (if all then dmgNote src dst ups cores downs cs else "")
 
 def parseCase (ws : List String) :
     Option (Nat × Nat × List Seg × List Seg × List Seg × List String) :=
@@ -192,24 +191,34 @@ def parseCase (ws : List String) :
     | _, _, _, _, _ => none
   | _ => none
 
-def handleProp (prop mode : String) (ws : List String) : String :=
-  if mode ≠ "all" ∧ mode ≠ "uniq" then "bad-op" else
+/-- `c28|c29 <src> <dst> <nU> <nC> <nD> <seg>* R <k> <returned, findAllIdentical=true> U <k'>
+<returned, findAllIdentical=false>`; a returned path is 7 words (`c28` R), 3 words (`c28` U) or
+one `F…` word (`c29`) -/
+def handleProp (prop : String) (ws : List String) : String :=
   match parseCase ws with
   | some (src, dst, ups, cores, downs, "R" :: k :: rest) =>
     match k.toNat? with
     | none => "bad-op"
     | some k =>
-      if prop = "c28" then
-        match takeGroups (if mode = "all" then 7 else 3) k rest with
-        | some (gs, []) => answer28 (mode = "all") src dst ups cores downs gs
-        | _ => "bad-op"
-      else
-        if rest.length = k then answer29 (mode = "all") src dst ups cores downs rest else "bad-op"
+      match takeGroups (if prop = "c28" then 7 else 1) k rest with
+      | some (ga, "U" :: k2 :: rest2) =>
+        match k2.toNat? with
+        | none => "bad-op"
+        | some k2 =>
+          match takeGroups (if prop = "c28" then 3 else 1) k2 rest2 with
+          | some (gu, []) =>
+            if prop = "c28" then
+              answer28 src dst ups cores downs ga gu
+            else
+              answer29 true src dst ups cores downs ga.flatten ++ " || " ++
+              answer29 false src dst ups cores downs gu.flatten
+          | _ => "bad-op"
+      | _ => "bad-op"
   | _ => "bad-op"
 
 def handle : List String → String
-  | "c28" :: mode :: ws => handleProp "c28" mode ws
-  | "c29" :: mode :: ws => handleProp "c29" mode ws
+  | "c28" :: ws => handleProp "c28" ws
+  | "c29" :: ws => handleProp "c29" ws
   | "comb" :: mode :: src :: dst :: nu :: nc :: nd :: ws =>
     match src.toNat?, dst.toNat?, nu.toNat?, nc.toNat?, nd.toNat? with
     | some src, some dst, some nu, some nc, some nd =>
